@@ -652,10 +652,26 @@ def new_module_constants(tree, module_name, base):
     for n in ast.walk(tree):
         if isinstance(n, ast.Name) and isinstance(n.ctx, (ast.Store, ast.Del)):
             counts[n.id] = counts.get(n.id, 0) + 1
+    # a container that is written to anywhere in the module is state, not a constant
+    mutated = set()
+    for n in ast.walk(tree):
+        b = None
+        if isinstance(n, (ast.Subscript, ast.Attribute)) and isinstance(n.ctx, (ast.Store, ast.Del)):
+            b = n.value
+            while isinstance(b, (ast.Subscript, ast.Attribute)):
+                b = b.value
+        elif isinstance(n, ast.Call) and isinstance(n.func, ast.Attribute) and n.func.attr in (
+                "append", "extend", "update", "clear", "pop", "setdefault", "add", "insert", "remove", "popitem",
+                "sort", "reverse", "discard"):
+            b = n.func.value
+        elif isinstance(n, ast.AugAssign):
+            b = n.target
+        if isinstance(b, ast.Name):
+            mutated.add(b.id)
     for st in tree.body:
         if isinstance(st, ast.Assign) and len(st.targets) == 1 and isinstance(st.targets[0], ast.Name):
             nm = st.targets[0].id
-            if nm in known or counts.get(nm, 0) != 1 or nm.startswith("__"):
+            if nm in known or counts.get(nm, 0) != 1 or nm.startswith("__") or nm in mutated:
                 continue
             if _pure(st.value, {}, {}, set()):
                 consts[nm] = st.value
